@@ -33,6 +33,7 @@ type Result struct {
 	States, Transitions int
 	Samples             []any
 	Exhaustive          *bool
+	Raw                 []RawViolation // violations found by non-E1 engines
 }
 
 type checkFn func(c *Ctx) *Result
@@ -187,6 +188,19 @@ func finish(c *Ctx, res *Result) int {
 		}
 		fmt.Printf("violation: cfg=%s\n  history: %s\n  %s\n", res.Found.Spec.Cfg, histString(res.Found.Hist), res.Found.V.Error())
 	}
+	for _, rv := range res.Raw {
+		violations++
+		b, _ := json.MarshalIndent(map[string]any{"property": c.ID, "tier": c.Tier, "violation": rv.Text, "payload": rv.Payload}, "", " ")
+		sum := sha256.Sum256(b)
+		dir := filepath.Join(verifRoot(), "replays")
+		_ = os.MkdirAll(dir, 0o755)
+		p := filepath.Join(dir, fmt.Sprintf("%s-%x.json", c.ID, sum[:6]))
+		_ = os.WriteFile(p, b, 0o644)
+		fmt.Printf("violation: %s\n", oneLine(rv.Text))
+		if vline == "" {
+			vline = fmt.Sprintf("VIOLATION property=%s replay=%s", c.ID, p)
+		}
+	}
 	known := c.KF.Report(c.ID)
 	writeEvidence(c, states, trans, samples, exhaustive, runs, outcomes, res, violations, known)
 	fmt.Printf("%s %s: states=%d transitions=%d exhaustive=%v wall=%.1fs\n", c.ID, c.Tier, states, trans, exhaustive, time.Since(c.Start).Seconds())
@@ -295,3 +309,14 @@ func doReplay(path string) int {
 }
 
 var replayHandlers = map[string]func(rf *ReplayFile, raw []byte) int{}
+
+// rawViolation records a violation found by a non-E1 engine (input enumerations, crash cuts, faults ...).
+func rawViolation(c *Ctx, r *Result, text string, payload any) {
+	r.Raw = append(r.Raw, RawViolation{Text: text, Payload: payload})
+}
+
+type RawViolation struct {
+	Text    string `json:"text"`
+	Payload any    `json:"payload"`
+	Known   string `json:"-"`
+}
